@@ -14,7 +14,8 @@ use std::collections::{HashMap, HashSet};
 /// See https://spec.graphql.org/draft/#sec-All-Variable-Uses-Defined
 pub struct NoUndefinedVariables<'a> {
     current_scope: Option<NoUndefinedVariablesScope<'a>>,
-    defined_variables: HashMap<Option<&'a str>, HashSet<&'a str>>,
+    defined_variables: HashMap<(usize, Option<&'a str>), HashSet<&'a str>>,
+    operations_count: usize,
     used_variables: HashMap<NoUndefinedVariablesScope<'a>, Vec<&'a str>>,
     spreads: HashMap<NoUndefinedVariablesScope<'a>, Vec<&'a str>>,
 }
@@ -30,6 +31,7 @@ impl<'a> NoUndefinedVariables<'a> {
         Self {
             current_scope: None,
             defined_variables: HashMap::new(),
+            operations_count: 0,
             used_variables: HashMap::new(),
             spreads: HashMap::new(),
         }
@@ -73,7 +75,9 @@ impl<'a> NoUndefinedVariables<'a> {
 
 #[derive(Debug, Clone, PartialEq, Eq, Hash)]
 pub enum NoUndefinedVariablesScope<'a> {
-    Operation(Option<&'a str>),
+    /// An operation, told apart from the others by its index in the document:
+    /// operation names may be missing or repeated.
+    Operation(usize, Option<&'a str>),
     Fragment(&'a str),
 }
 
@@ -84,9 +88,12 @@ impl<'a> OperationVisitor<'a, ValidationErrorContext> for NoUndefinedVariables<'
         _: &mut ValidationErrorContext,
         operation_definition: &'a OperationDefinition,
     ) {
+        let op_index = self.operations_count;
         let op_name = operation_definition.node_name();
-        self.current_scope = Some(NoUndefinedVariablesScope::Operation(op_name));
-        self.defined_variables.insert(op_name, HashSet::new());
+        self.operations_count += 1;
+        self.current_scope = Some(NoUndefinedVariablesScope::Operation(op_index, op_name));
+        self.defined_variables
+            .insert((op_index, op_name), HashSet::new());
     }
 
     fn enter_fragment_definition(
@@ -120,8 +127,8 @@ impl<'a> OperationVisitor<'a, ValidationErrorContext> for NoUndefinedVariables<'
         _: &mut ValidationErrorContext,
         variable_definition: &'a query::VariableDefinition,
     ) {
-        if let Some(NoUndefinedVariablesScope::Operation(ref name)) = self.current_scope {
-            if let Some(vars) = self.defined_variables.get_mut(name) {
+        if let Some(NoUndefinedVariablesScope::Operation(index, name)) = self.current_scope {
+            if let Some(vars) = self.defined_variables.get_mut(&(index, name)) {
                 vars.insert(&variable_definition.name);
             }
         }
@@ -147,12 +154,12 @@ impl<'a> OperationVisitor<'a, ValidationErrorContext> for NoUndefinedVariables<'
         user_context: &mut ValidationErrorContext,
         _: &query::Document,
     ) {
-        for (op_name, def_vars) in &self.defined_variables {
+        for ((op_index, op_name), def_vars) in &self.defined_variables {
             let mut unused = HashSet::new();
             let mut visited = HashSet::new();
 
             self.find_undefined_vars(
-                &NoUndefinedVariablesScope::Operation(*op_name),
+                &NoUndefinedVariablesScope::Operation(*op_index, *op_name),
                 def_vars,
                 &mut unused,
                 &mut visited,
